@@ -27,6 +27,14 @@ def P(n):
 ORDERED, UNORDERED, CONTENT, SCALAR = "ORDERED", "UNORDERED", "CONTENT", "SCALAR"
 
 
+# sort keys confirmed to be injective on what they sort (one line of reason each)
+INJECTIVE_KEYS = {
+    'lambdax:x["path"]': "image paths are distinct within a cell (quantifier of C08)",
+    "lambdax:x['path']": "image paths are distinct within a cell (quantifier of C08)",
+    "lambdax:x.uid": "variant UIDs are unique in a forest (C11)",
+}
+
+
 class OrderCtx(object):
     def __init__(self, model, cx):
         self.model = model
@@ -39,7 +47,9 @@ class OrderCtx(object):
                 loc = ev.value[1][1]
                 meth = ev.value[1][2]
                 if meth == "sort" and not ev.guards:
-                    self.sorted_at.setdefault(loc[1:3], ev.seq)
+                    key = dict(ev.value[3]).get("key")
+                    if key is None or (key[0] == "lambda" and key[1].replace(" ", "") in INJECTIVE_KEYS):
+                        self.sorted_at.setdefault(loc[1:3], ev.seq)
                 if meth in ("append", "add", "extend", "insert"):
                     kinds = [self.kind(l[1]) for l in ev.loops]
                     self.filled_from.setdefault(loc[1:3], []).extend(kinds)
@@ -99,6 +109,10 @@ class OrderCtx(object):
         if t[0] == "call":
             f = t[1]
             if f == ("global", "sorted"):
+                key = dict(t[3]).get("key")
+                if key is not None and self.kind(t[2][0], at_seq) == UNORDERED and not (key[0] == "lambda" and key[1].replace(" ", "") in INJECTIVE_KEYS):
+                    # ties of a non-injective key are left in the iteration order of the unordered source
+                    return UNORDERED
                 return ORDERED
             if f[0] == "global" and f[1] in ("list", "tuple") and t[2]:
                 return self.kind(t[2][0], at_seq)
@@ -181,8 +195,10 @@ def r_order(model, rep):
                     problems.append("%s is joined into a string in iteration order of an unordered container" % T.show(src)[:80])
             # (2) the emitted value itself is a sequence
             k = oc.kind(v, e.ev.seq)
-            if v[0] in ("call", "comp", "local", "list", "attr", "phi") and k in (UNORDERED,) and not (v[0] == "attr") \
-                    and not (v[0] == "call" and v[1][0] == "attr" and v[1][2] == "join"):
+            uv = T.unwrap(v)
+            is_seq_construction = (uv[0] == "comp" and uv[1] in ("list", "gen")) or uv[0] == "list" or (
+                uv[0] == "call" and uv[1][0] == "global" and uv[1][1] in ("list", "tuple", "sorted"))
+            if is_seq_construction and k == UNORDERED:
                 problems.append("%s is emitted as a list in iteration order of an unordered container" % T.show(v)[:80])
             if v[0] in ("call", "comp", "local") and k in (ORDERED, UNORDERED, CONTENT) and not (v[0] == "call" and v[1][0] == "attr" and v[1][2] == "join"):
                 if T.contains(v, lambda x: x[0] in ("comp",) or (x[0] == "call" and x[1][0] == "global" and x[1][1] in ("sorted", "list", "tuple"))):
@@ -270,6 +286,9 @@ def r_inicfg(model, rep):
                     active = False
             if active:
                 ok = True
+    keys = set(ev.target[2][1] for ev in cx.events if ev.kind == "store" and ev.target[0] == "sub" and ev.target[1] == P("kwargs") and ev.target[2][0] == "const")
+    rep.ob("R-INICFG", "SortedConfigParser.__init__:no-other-options", keys <= {"dict_type"}, site=cx.site(f.node),
+           msg="" if keys <= {"dict_type"} else "SortedConfigParser sets ConfigParser options %s" % sorted(keys - {"dict_type"}))
     sup = [ev for ev in cx.events if ev.kind == "call" and ev.value[1][0] == "attr" and ev.value[1][2] == "__init__"
            and any(k == "**" and v == P("kwargs") for k, v in ev.value[3])]
     rep.ob("R-INICFG", "SortedConfigParser.__init__:dict_type", ok and bool(sup), site=cx.site(f.node),
